@@ -43,7 +43,17 @@ def run(ctx):
     for un in (False, True):
         jobs += [('%s_%s_%d' % (tag, a[0], un), src, a, 2, 200, un, 300000) for tag, src, a in pre]
     ctx.stats['preempt_programs'] = len(pre)
+    sp = gen_special.spec_programs()
+    for w in ((2,) if ctx.quick else (2, 4)):
+        jobs += [('%s_%s_w%d' % (tag, a[0], w), src, a, w, 200, False, 300000) for tag, src, a in sp]
+    ctx.stats['speculation_programs'] = len(sp)
     tally, bad, res = suites.differential(ctx, jobs, None, label='time-travel')
+    # the typechecker folds `??` (and constants generally): the reference above runs on the real front end's typed tree, so the
+    # special families are also judged against the typed tree of the verified front-end model
+    fam = {}
+    for tag, src, a in sp + exits + pre:
+        fam.setdefault(src, 'f%d' % len(fam))
+    suites.independent_front_end(ctx, {n: src for src, n in fam.items()}, [j for j in jobs if j[1] in fam])
     bt = sum(1 for r in res.values() if 'src' in r and r['src'].backtracks > 0)
     ctx.stats['runs_with_backtracking'] = bt
     ctx.samples.append(dict(generated_program=jobs[-1][1][:1500], args=jobs[-1][2], w=jobs[-1][3]))
